@@ -48,7 +48,7 @@ Accept(c) ==
        \* metric thresholds are only read by tasks that compute detection / tracking metrics
        /\ (c.task \in MetricTasks => c.thr = "ok")
 
-\* frame-level configurations: [kind : "xy" | "ring" | "both" | "none", lenDelta : -1..1, is2d : BOOLEAN]
+\* frame-level configurations: [kind : "xy" | "ring" | "both" | "none" | a partial mixture, lenDelta : -1..1, is2d : BOOLEAN]
 AcceptCritical(f) ==
   \/ (f.kind \in {"xy", "ring"} /\ f.lenDelta = 0)
   \/ (f.kind = "none" /\ f.is2d)            \* no per-label list is given at all
